@@ -20,5 +20,16 @@ def run(ctx):
     # a swap succeeds only if typing the replacement does not depend on what was typed before
     from ..rules_ast import persistent_state_rule
     ctx.guard(persistent_state_rule, ctx, "C19.history-free-typing")
+    # the match cache is keyed by the instance: parts must compare and hash by identity, or a replacement inherits the
+    # cached match of the part it replaces
+    from ..rules_misc import identity_rule
+    ctx.guard(identity_rule, ctx, "C19.identity")
     from ..rules_misc import assembly_layering_rule
     ctx.guard(assembly_layering_rule, ctx, "C19.assembly-layering")
+
+    # a replacement that is valid by the class's rules must stay valid whatever backbone stores it: the illegal-site
+    # screen looks at the matched region only
+    from ..rules_misc import k21_match_overrides
+    from ..rules_pattern import module_screen_rule
+    ctx.guard(k21_match_overrides, ctx, "C19")
+    ctx.guard(module_screen_rule, ctx, "C19.screen-locality", threshold=False)
